@@ -375,13 +375,120 @@ impl Prop for NoAlloc {
     }
 }
 
-pub const RULE: &str = "cases = (format, 100..1500 records of uniform or mildly varying shape - in 1 of 3 cases 40..900 records of 200..3000 bases (FASTA line width 1..100, i.e. up to 3000 lines per record) and / or tiny records between the others -, LF/CRLF, capacity = (largest extent + 1) x factor 1..5 + slack, chunk script, mode next() / one reused RecordSet / a generated mixture of both on one reader; optionally a few seeks back to earlier records in the second half; FASTQ optionally with different terminators on sequence and quality line). Every call after a warm-up of max(8 records, 2 buffer capacities) whose observable shape is dominated by what the same reader / set already handled (lines per record, records per set, lines per slot, total lines per set) is measured with a counting global allocator (thread-local window around the call and the accessors head/seq/qual/seq_lines): it must perform 0 allocations; the record-set buffer capacity and the reader capacity (policy never asked) stay unchanged. Non-dominated calls are skipped and counted. Non-trivial = >= 20 measured dominated calls in the case. Distinct = hash(case).";
+// ------------------------------------------------------------------------------------------------
+// one record set filled alternately by two readers with different buffer sizes (paired files)
+
+#[derive(Clone, Debug, Serialize, Deserialize, Hash)]
+pub struct TwoCase {
+    pub format: Format,
+    pub n_records: u16,
+    pub seq_len: u8,
+    pub crlf: bool,
+    /// capacities of the two readers = (largest extent + 1) x factor
+    pub factor_a: u8,
+    pub factor_b: u8,
+    /// 1..3 record sets used in rotation by both readers
+    pub n_sets: u8,
+}
+
+pub struct TwoReaders;
+
+impl Prop for TwoReaders {
+    type Case = TwoCase;
+    fn strategy(&self, _tier: Tier) -> BoxedStrategy<TwoCase> {
+        boxed((gen::format(), 200u16..1200, 0u8..60, any::<bool>(), 1u8..8, 1u8..8, 1u8..4).prop_map(|(format, n_records, seq_len, crlf, factor_a, factor_b, n_sets)| TwoCase { format, n_records, seq_len, crlf, factor_a, factor_b, n_sets }))
+    }
+    fn check(&self, c: &TwoCase, ctx: &mut Ctx) -> CheckResult {
+        let f = fmt_name(c.format);
+        let input = super::c09::long_doc(c.format, c.n_records as usize, c.seq_len as usize, 0, c.crlf);
+        let m = Model::build(c.format, &input);
+        ensure!(m.recs.len() == c.n_records as usize && m.term == Terminal::End, "harness/long-doc", "harness: document does not model as {} records", c.n_records);
+        let max_e = m.recs.iter().map(|r| r.extent).max().unwrap_or(0);
+        let (cap_a, cap_b) = ((max_e + 1) * c.factor_a as usize + 3, (max_e + 1) * c.factor_b as usize + 3);
+        ctx.nontrivial(c, c);
+        if cap_a != cap_b {
+            ctx.class("the two readers have different buffer sizes");
+        }
+        let k = (c.n_sets as usize).clamp(1, 3);
+        macro_rules! go {
+            ($m:ident) => {{
+                let mut ra = $m::Reader::with_capacity(&input[..], cap_a);
+                let mut rb = $m::Reader::with_capacity(&input[..], cap_b);
+                let mut sets: Vec<$m::RecordSet> = (0..k).map(|_| $m::RecordSet::default()).collect();
+                let (mut done_a, mut done_b) = (false, false);
+                let mut call = 0usize;
+                let mut max_recs = vec![0usize; k];
+                let mut caps: Vec<Option<usize>> = vec![None; k];
+                let mut fills = vec![0usize; k];
+                let mut measured_calls = 0u64;
+                while !(done_a && done_b) {
+                    let use_a = (call % 2 == 0 && !done_a) || done_b;
+                    let si = call % k;
+                    let set = &mut sets[si];
+                    let (res, allocs, bytes) = if use_a { measured(|| ra.read_record_set(set).map(|r| r.is_ok())) } else { measured(|| rb.read_record_set(set).map(|r| r.is_ok())) };
+                    match res {
+                        None => {
+                            if use_a {
+                                done_a = true
+                            } else {
+                                done_b = true
+                            }
+                        }
+                        Some(false) => fail!(format!("{}/two-readers/read-failed", f), "a set read failed on well-formed input"),
+                        Some(true) => {
+                            let n = set.len();
+                            let dominated = n <= max_recs[si];
+                            max_recs[si] = max_recs[si].max(n);
+                            fills[si] += 1;
+                            // warm: this set has been filled at least twice by each reader
+                            if fills[si] > 4 && dominated {
+                                measured_calls += 1;
+                                ensure!(
+                                    allocs == 0,
+                                    format!("{}/two-readers/allocation-in-steady-state", f),
+                                    "read_record_set() of reader {} (capacity {}) into a set that both readers (capacities {} and {}) have filled before performed {} heap allocation(s) ({} bytes)",
+                                    if use_a { "A" } else { "B" },
+                                    if use_a { cap_a } else { cap_b },
+                                    cap_a,
+                                    cap_b,
+                                    allocs,
+                                    bytes
+                                );
+                                if let Some(cp) = caps[si] {
+                                    ensure!(set.buf_capacity() == cp, format!("{}/two-readers/set-buffer-capacity-changed", f), "record set buffer capacity changed from {} to {}", cp, set.buf_capacity());
+                                }
+                            }
+                            if fills[si] > 4 {
+                                caps[si] = Some(set.buf_capacity());
+                            }
+                        }
+                    }
+                    call += 1;
+                    if call > 100_000 {
+                        fail!(format!("{}/two-readers/endless", f), "more than 100 000 set reads");
+                    }
+                }
+                ctx.class_n("measured set reads (two readers)", measured_calls);
+            }};
+        }
+        match c.format {
+            Format::Fasta => go!(fasta),
+            Format::Fastq => go!(fastq),
+        }
+        Ok(())
+    }
+}
+
+pub const RULE: &str = "cases = (format, 100..1500 records of uniform or mildly varying shape - in 1 of 3 cases 40..900 records of 200..3000 bases (FASTA line width 1..100, i.e. up to 3000 lines per record) and / or tiny records between the others -, LF/CRLF, capacity = (largest extent + 1) x factor 1..5 + slack, chunk script, mode next() / one reused RecordSet / a generated mixture of both on one reader; optionally a few seeks back to earlier records in the second half; FASTQ optionally with different terminators on sequence and quality line). Every call after a warm-up of max(8 records, 2 buffer capacities) whose observable shape is dominated by what the same reader / set already handled (lines per record, records per set, lines per slot, total lines per set) is measured with a counting global allocator (thread-local window around the call and the accessors head/seq/qual/seq_lines): it must perform 0 allocations; the record-set buffer capacity and the reader capacity (policy never asked) stay unchanged. Non-dominated calls are skipped and counted. Non-trivial = >= 20 measured dominated calls in the case. Distinct = hash(case). Sub-check two-readers-one-set: two readers with different buffer sizes over a uniform document fill 1..3 shared record sets alternately (paired files); once a set has been filled more than four times, a fill that delivers no more records than an earlier one performs no allocation and leaves the set's buffer capacity unchanged.";
 
 pub fn run(tier: Tier) -> i32 {
     let mut run = Run::new("C18", tier, "exploration");
     let p = NoAlloc;
     run.replays("steady-state-allocations", &p);
     run.generated("steady-state-allocations", &p, tier.pick(40_000, 200_000));
+    let t = TwoReaders;
+    run.replays("two-readers-one-set", &t);
+    run.generated("two-readers-one-set", &t, tier.pick(6_000, 60_000));
     run.finish(
         RULE,
         &["allocations are seen through #[global_allocator]; other threads are excluded by the thread-local window", "full_seq()/owned_seq()/to_owned_record() allocate by contract and are not measured"],
@@ -389,5 +496,5 @@ pub fn run(tier: Tier) -> i32 {
 }
 
 pub fn replay(run: &mut Run, file: &std::path::Path) -> Option<bool> {
-    run.replay_file("steady-state-allocations", &NoAlloc, file, true)
+    run.replay_file("steady-state-allocations", &NoAlloc, file, true).or_else(|| run.replay_file("two-readers-one-set", &TwoReaders, file, true))
 }
